@@ -65,6 +65,16 @@ Theorem C01_zero_position_resets :
 Proof. vm_compute. reflexivity. Qed.
 Print Assumptions C01_zero_position_resets.
 
+(* Second documented boundary: counts are assumed >= 0 (wf). handleSeq passes
+   Count = Seq - SeqStart + 1 to the seq box and validateSeq does not reject SeqStart > Seq,
+   so a combined container with SeqStart = Seq + 2 has Count = -1: it is applied exactly when
+   the local position is one ABOVE its seq and moves the position back. *)
+Theorem C01_negative_count_regresses :
+  step (box_init 8) (Handle {| uid := 1; ust := 7; ucnt := -1 |}) =
+  (box_init 7, [Dlv 7 [{| uid := 1; ust := 7; ucnt := -1 |}]]).
+Proof. vm_compute. reflexivity. Qed.
+Print Assumptions C01_negative_count_regresses.
+
 (* non-vacuity: a history satisfying all hypotheses in which a gap is opened, filled by
    late arrivals (with a duplicate and an overlapping multi-count update), and a fetched
    difference intervenes; the chain u1,u4 is delivered at once (u4 = the multi-count
